@@ -69,6 +69,7 @@ def run(ctx):
 
 def one(ctx, root, abs_files, rel_files, generated, spec):
     k2d, d2k = ident_maps(abs_files) if generated else ({}, {})
+    state = {}
     srv = LSP(srv_bin(), root, locklog=os.path.join(ctx.scratch_root, "lock_srv.log"))
     try:
         srv.initialize(timeout=120)
@@ -81,120 +82,141 @@ def one(ctx, root, abs_files, rel_files, generated, spec):
                 if m.ok:
                     for d in m.defs:
                         ndefs[d["name"]] = ndefs.get(d["name"], 0) + 1
-        for f, t in sorted(abs_files.items()):
-            if not f.endswith(".py") or "/.venv/" in f:
-                continue
-            m = FileModel(t, f)
-            if not m.ok or not m.usages:
-                continue
-            # the per-file view, through completion on the probe decorator line (or inside a test signature)
-            view = None
-            lines = t.split("\n")
-            for li, l in enumerate(lines):
-                if l.startswith("@pytest.mark.usefixtures()"):
-                    r = srv.completion(f, li, len("@pytest.mark.usefixtures("))
+        def sweep():
+            for f, t in sorted(abs_files.items()):
+                if not f.endswith(".py") or "/.venv/" in f:
+                    continue
+                m = FileModel(t, f)
+                if not m.ok or not m.usages:
+                    continue
+                # the per-file view, through completion on the probe decorator line (or inside a test signature)
+                view = None
+                lines = t.split("\n")
+                for li, l in enumerate(lines):
+                    if l.startswith("@pytest.mark.usefixtures()"):
+                        r = srv.completion(f, li, len("@pytest.mark.usefixtures("))
+                        if not r["answered"]:
+                            raise Inconclusive("completion unanswered")
+                        items = r.get("result") or []
+                        if isinstance(items, dict):
+                            items = items.get("items", [])
+                        view = {}
+                        for it in items:
+                            view.setdefault(it["label"], []).append(it)
+                        break
+                hints = srv.inlay_hint(f).get("result") or []
+                hint_at = {(h["position"]["line"], h["position"]["character"]): h["label"] for h in hints}
+                for u in m.usages:
+                    if u["name"] in ("request", "self", "cls") or u.get("has_default"):
+                        continue
+                    if not u.get("exact_span", True) or not u.get("plain_string", True):
+                        continue
+                    pos = (u["line"] - 1, u["start_b"])
+                    ids = {}
+                    r = srv.definition(f, *pos)
                     if not r["answered"]:
-                        raise Inconclusive("completion unanswered")
-                    items = r.get("result") or []
-                    if isinstance(items, dict):
-                        items = items.get("items", [])
-                    view = {}
-                    for it in items:
-                        view.setdefault(it["label"], []).append(it)
-                    break
-            hints = srv.inlay_hint(f).get("result") or []
-            hint_at = {(h["position"]["line"], h["position"]["character"]): h["label"] for h in hints}
-            for u in m.usages:
-                if u["name"] in ("request", "self", "cls") or u.get("has_default"):
-                    continue
-                if not u.get("exact_span", True) or not u.get("plain_string", True):
-                    continue
-                pos = (u["line"] - 1, u["start_b"])
-                ids = {}
-                r = srv.definition(f, *pos)
-                if not r["answered"]:
-                    raise Inconclusive("definition unanswered")
-                res = r.get("result")
-                if res:
-                    res = res[0] if isinstance(res, list) else res
-                    ids["definition"] = (uri_to_path(res["uri"]), res["range"]["start"]["line"] + 1)
-                else:
-                    ids["definition"] = None
-                hv = srv.hover(f, *pos).get("result")
-                if hv:
-                    val = hv["contents"]["value"]
-                    mm = DOC_RE.search(val) or T_RE.search(val.split("```python")[1] if "```python" in val else "")
-                    ids["hover"] = k2d[int(mm.group(1))][:2] if (mm and int(mm.group(1)) in k2d) else ("?", val[:80]) if generated else "text"
-                else:
-                    ids["hover"] = None
-                im = srv.implementation(f, *pos).get("result")
-                if im:
-                    im = im[0] if isinstance(im, list) else im
-                    ip, il = uri_to_path(im["uri"]), im["range"]["start"]["line"] + 1
-                    # implementation points at the yield line of generator fixtures: map back to the definition
-                    tgt = None
-                    tm = FileModel(abs_files.get(ip, ""), ip) if ip in abs_files else None
-                    if tm and tm.ok:
-                        for d in tm.defs:
-                            if il in (d["line"], d["yield_line"]):
-                                tgt = (ip, d["line"])
-                    ids["implementation"] = tgt or (ip, il)
-                else:
-                    ids["implementation"] = None
-                pr = srv.prepare_call_hierarchy(f, *pos).get("result")
-                if pr:
-                    it = pr[0]
-                    ids["callHierarchy"] = (uri_to_path(it["uri"]), it["selectionRange"]["start"]["line"] + 1)
-                else:
-                    ids["callHierarchy"] = None
-                self_named = u.get("in_def") is not None and u["in_def"]["name"] == u["name"]
-                # outgoing calls of the enclosing fixture
-                if u["kind"] == "fixture_param" and u["in_def"]["name_span"] and u["in_def"]["line"] == u["line"] \
-                        and len([d for d in m.defs if d["name"] == u["in_def"]["name"]]) == 1:
-                    d = u["in_def"]
-                    pr2 = srv.prepare_call_hierarchy(f, d["line"] - 1, d["name_span"]["start_b"]).get("result")
-                    if pr2:
-                        out = srv.outgoing(pr2[0]).get("result") or []
-                        tos = [(uri_to_path(o["to"]["uri"]), o["to"]["selectionRange"]["start"]["line"] + 1) for o in out if o["to"]["name"] == u["name"]]
-                        ids["outgoingCalls"] = tos[0] if len(tos) == 1 else (None if not tos else ("multiple", tuple(tos)))
-                # inlay hint on this usage
-                lab = hint_at.get((u["line"] - 1, u["end_b"]))
-                if lab is not None and generated and not u.get("annotated"):
-                    lab = lab if isinstance(lab, str) else "".join(x["value"] for x in lab)
-                    mm = T_RE.search(lab)
-                    if mm and int(mm.group(1)) in k2d:
-                        ids["inlayHint"] = k2d[int(mm.group(1))][:2]
-                # completion entry
-                if view is not None and generated:
-                    ents = view.get(u["name"], [])
-                    if len(ents) > 1:
-                        ctx.violation({"kind": "name-listed-more-than-once-in-per-file-view", "name": u["name"], "file": os.path.relpath(f, root)},
-                                      {"entries": [e.get("detail") for e in ents], "spec": spec}, files=rel_files)
-                    if ents:
-                        doc = ents[0].get("documentation", {})
-                        val = doc.get("value", "") if isinstance(doc, dict) else str(doc)
-                        mm = DOC_RE.search(val)
-                        ids["completion"] = k2d[int(mm.group(1))][:2] if (mm and int(mm.group(1)) in k2d) else ("?", val[:60])
+                        raise Inconclusive("definition unanswered")
+                    res = r.get("result")
+                    if res:
+                        res = res[0] if isinstance(res, list) else res
+                        ids["definition"] = (uri_to_path(res["uri"]), res["range"]["start"]["line"] + 1)
                     else:
-                        ids["completion"] = None
-                # ---- judgement: all decoded identities equal -----------------------------------------------------
-                ctx.judged()
-                vals = {k: v for k, v in ids.items() if v != "text"}
-                base = vals.get("definition")
-                bad = {k: v for k, v in vals.items() if v != base}
-                if bad:
-                    per_file = {"inlayHint", "completion"}
-                    if self_named and set(bad) <= per_file and ctx.known(KF_SELF_VIEW):
-                        # per-file view has one entry per name: from a same-named parameter navigation goes outward,
-                        # the view keeps describing the file's own (overriding) definition
-                        ctx.count("kf_self_param_view")
+                        ids["definition"] = None
+                    hv = srv.hover(f, *pos).get("result")
+                    if hv:
+                        val = hv["contents"]["value"]
+                        mm = DOC_RE.search(val) or T_RE.search(val.split("```python")[1] if "```python" in val else "")
+                        ids["hover"] = k2d[int(mm.group(1))][:2] if (mm and int(mm.group(1)) in k2d) else ("?", val[:80]) if generated else "text"
                     else:
-                        ctx.violation({"kind": "features-disagree", "file": os.path.relpath(f, root), "usage": [u["name"], u["line"], u["start_b"]],
-                                       "disagree": sorted(bad)},
-                                      {"identities": {k: (os.path.relpath(v[0], root), v[1]) if isinstance(v, tuple) and isinstance(v[0], str) and v[0].startswith("/") else v
-                                                      for k, v in vals.items()}, "usage_kind": u["kind"], "self_named": self_named, "spec": spec},
-                                      files=rel_files)
-                ctx.nontrivial((u["kind"], min(ndefs.get(u["name"], 0), 4), tuple(sorted(k for k, v in vals.items() if v is not None)), self_named))
+                        ids["hover"] = None
+                    im = srv.implementation(f, *pos).get("result")
+                    if im:
+                        im = im[0] if isinstance(im, list) else im
+                        ip, il = uri_to_path(im["uri"]), im["range"]["start"]["line"] + 1
+                        # implementation points at the yield line of generator fixtures: map back to the definition
+                        tgt = None
+                        tm = FileModel(abs_files.get(ip, ""), ip) if ip in abs_files else None
+                        if tm and tm.ok:
+                            for d in tm.defs:
+                                if il in (d["line"], d["yield_line"]):
+                                    tgt = (ip, d["line"])
+                        ids["implementation"] = tgt or (ip, il)
+                    else:
+                        ids["implementation"] = None
+                    pr = srv.prepare_call_hierarchy(f, *pos).get("result")
+                    if pr:
+                        it = pr[0]
+                        ids["callHierarchy"] = (uri_to_path(it["uri"]), it["selectionRange"]["start"]["line"] + 1)
+                    else:
+                        ids["callHierarchy"] = None
+                    self_named = u.get("in_def") is not None and u["in_def"]["name"] == u["name"]
+                    # outgoing calls of the enclosing fixture
+                    if u["kind"] == "fixture_param" and u["in_def"]["name_span"] and u["in_def"]["line"] == u["line"] \
+                            and len([d for d in m.defs if d["name"] == u["in_def"]["name"]]) == 1:
+                        d = u["in_def"]
+                        pr2 = srv.prepare_call_hierarchy(f, d["line"] - 1, d["name_span"]["start_b"]).get("result")
+                        if pr2:
+                            out = srv.outgoing(pr2[0]).get("result") or []
+                            tos = [(uri_to_path(o["to"]["uri"]), o["to"]["selectionRange"]["start"]["line"] + 1) for o in out if o["to"]["name"] == u["name"]]
+                            ids["outgoingCalls"] = tos[0] if len(tos) == 1 else (None if not tos else ("multiple", tuple(tos)))
+                    # inlay hint on this usage
+                    lab = hint_at.get((u["line"] - 1, u["end_b"]))
+                    if lab is not None and generated and not u.get("annotated"):
+                        lab = lab if isinstance(lab, str) else "".join(x["value"] for x in lab)
+                        mm = T_RE.search(lab)
+                        if mm and int(mm.group(1)) in k2d:
+                            ids["inlayHint"] = k2d[int(mm.group(1))][:2]
+                    # completion entry
+                    if view is not None and generated:
+                        ents = view.get(u["name"], [])
+                        if len(ents) > 1:
+                            ctx.violation({"kind": "name-listed-more-than-once-in-per-file-view", "name": u["name"], "file": os.path.relpath(f, root)},
+                                          {"entries": [e.get("detail") for e in ents], "spec": spec}, files=rel_files)
+                        if ents:
+                            doc = ents[0].get("documentation", {})
+                            val = doc.get("value", "") if isinstance(doc, dict) else str(doc)
+                            mm = DOC_RE.search(val)
+                            ids["completion"] = k2d[int(mm.group(1))][:2] if (mm and int(mm.group(1)) in k2d) else ("?", val[:60])
+                        else:
+                            ids["completion"] = None
+                    # ---- judgement: all decoded identities equal -----------------------------------------------------
+                    ctx.judged()
+                    vals = {k: v for k, v in ids.items() if v != "text"}
+                    base = vals.get("definition")
+                    bad = {k: v for k, v in vals.items() if v != base}
+                    if bad:
+                        per_file = {"inlayHint", "completion"}
+                        if self_named and set(bad) <= per_file and ctx.known(KF_SELF_VIEW):
+                            # per-file view has one entry per name: from a same-named parameter navigation goes outward,
+                            # the view keeps describing the file's own (overriding) definition
+                            ctx.count("kf_self_param_view")
+                        else:
+                            ctx.violation({"kind": "features-disagree", "file": os.path.relpath(f, root), "usage": [u["name"], u["line"], u["start_b"]],
+                                           "disagree": sorted(bad)},
+                                          {"identities": {k: (os.path.relpath(v[0], root), v[1]) if isinstance(v, tuple) and isinstance(v[0], str) and v[0].startswith("/") else v
+                                                          for k, v in vals.items()}, "usage_kind": u["kind"], "self_named": self_named, "spec": spec},
+                                          files=rel_files)
+                    ctx.nontrivial((u["kind"], min(ndefs.get(u["name"], 0), 4), tuple(sorted(k for k, v in vals.items() if v is not None)), self_named))
+
+        sweep()
+        if generated:
+            # import-only edit of a conftest (buffer only), then the same comparison again: the cached per-file
+            # view must follow the navigation features
+            confs = [f for f, t in abs_files.items() if f.endswith("conftest.py") and "/.venv/" not in f
+                     and any(l.startswith(("from .", "from fx", "pytest_plugins")) for l in t.split("\n"))]
+            for cf in confs[:2]:
+                ls = abs_files[cf].split("\n")
+                idx = [i for i, l in enumerate(ls) if l.startswith(("from .", "from fx", "pytest_plugins"))]
+                del ls[ctx.rng.choice(idx)]
+                nt = "\n".join(ls)
+                abs_files = dict(abs_files); abs_files[cf] = nt
+                rel_files = dict(rel_files); rel_files[os.path.relpath(cf, root)] = nt
+                before = srv.seq
+                srv.did_open(cf, nt)
+                srv.wait_diagnostics(cf, before, timeout=20)
+                k2d, d2k = ident_maps(abs_files)
+                ctx.count("import_only_edits")
+                sweep()
         ctx.count("workspaces")
     finally:
         un = srv.unanswered()
